@@ -482,7 +482,7 @@ def use(fact, note):
     return fact
 
 
-def kernel_pre_oblique(run, kc, j, i, tag=""):
+def kernel_pre_oblique(run, kc, j, i, tag="", k=0, Zpos=None):
     """the kernel's precondition at the call site for an arbitrary orthonormal basis: pixel centres projected on u, v
     sit on the kernel's grid; a cell passing the test is within half-diagonal of the pixel along u and v
     (Cauchy-Schwarz); the plane itself for the depth axis"""
@@ -494,30 +494,33 @@ def kernel_pre_oblique(run, kc, j, i, tag=""):
     ortho = [dot(u, u) == 1, dot(v, v) == 1, dot(nn, nn) == 1, dot(u, v) == 0, dot(u, nn) == 0, dot(v, nn) == 0]
     snp.reveal_linspace(i)
     snp.reveal_linspace(j)
-    gp = [SV.lift(kc.gp.elem((0, j, i, d))) for d in range(3)]
+    if Zpos is not None:
+        snp.reveal_linspace(k)
+    gp = [SV.lift(kc.gp.elem((k, j, i, d))) for d in range(3)]
     og = [SV.lift(kc.orig[d].elem((n,))) for d in range(3)]
     size = SV.lift(kw["cell_sizes"].elem((n,)))
     r3 = core.sqrt(3)
     half = size * r3
     delta = [gp[d] - og[d] for d in range(3)]
-    passes = kc.contains(n, 0, j, i)
+    passes = kc.contains(n, k, j, i)
     inst = []
     facts = []
-    # the pixel centre in the kernel's length unit (the window width): gp_d = Xk u_d + Yk v_d
+    # the pixel centre in the kernel's length unit (the window width): gp_d = Xk u_d + Yk v_d (+ Zk n_d)
     Wk = SV.lift(run.win.magnitude)
     Xk, Yk = SV.lift(run.out.x.elem((i,))) / Wk, SV.lift(run.out.y.elem((j,))) / Wk
+    Zk = (SV.lift(Zpos) / Wk) if Zpos is not None else None
     P = []
     for d in range(3):
-        Pd = gp[d] == Xk * u[d] + Yk * v[d]
+        Pd = gp[d] == (Xk * u[d] + Yk * v[d] + (Zk * nn[d] if Zk is not None else 0))
         core.lemma(tag + "kernel_pre.oblique.pixel_position[%d]" % d, run.unit_facts(), Pd)
         P.append(Pd)
-    for cname, axis, other, idx in (("x", u, v, i), ("y", v, u, j)):
+    axes = [("x", u, i, Xk), ("y", v, j, Yk)] + ([("z", nn, k, Zk)] if Zk is not None else [])
+    for cname, axis, idx, own in axes:
         lo, sp = SV.lift(kw["grid_lower_edge_in_new_basis_" + cname]), SV.lift(kw["grid_spacing_in_new_basis_" + cname])
         centre = SV.lift(kw["cell_positions_in_new_basis_" + cname].elem((n,)))
         g = dot(gp, axis)
         # gp = (x_i u + y_j v + 0 n)/dx  =>  gp.axis = x_i/dx (orthonormality), which is a point of the kernel's grid
-        own = Xk if cname == "x" else Yk
-        Q = g == Xk * dot(u, axis) + Yk * dot(v, axis)
+        Q = g == Xk * dot(u, axis) + Yk * dot(v, axis) + (Zk * dot(nn, axis) if Zk is not None else 0)
         core.lemma(tag + "kernel_pre.oblique.projection_expansion." + cname, P, Q)
         R = g == own
         core.lemma(tag + "kernel_pre.oblique.projection." + cname, [Q] + ortho, R)
@@ -536,23 +539,26 @@ def kernel_pre_oblique(run, kc, j, i, tag=""):
         fa = use(footprint_axis(g, lo, sp, idx, centre, half, half), note)
         inst += [cs, sa, fa]
         facts += [on_grid, proj]
-    # depth axis of a thin map: the plane itself
-    lo, sp = SV.lift(kw["grid_lower_edge_in_new_basis_z"]), SV.lift(kw["grid_spacing_in_new_basis_z"])
-    gz = dot(gp, nn)
-    zfact = core.conj(gz == 0, lo == 0, sp > 0)
-    core.lemma(tag + "kernel_pre.oblique.pixel_on_kernel_grid.z", ortho + run.unit_facts() + run.extent_facts(), zfact)
-    projz = SV.lift(kw["cell_positions_in_new_basis_z"].elem((n,))) == dot(og, nn)
-    prove(tag + "kernel_pre.oblique.projected_centre.z", projz)
-    csz = use(cs_instance(delta, nn), note)
-    saz = use(sq_abs_instance(dot(delta, nn), half), note)
+    extra = []
+    if Zk is None:
+        # depth axis of a thin map: the plane itself
+        lo, sp = SV.lift(kw["grid_lower_edge_in_new_basis_z"]), SV.lift(kw["grid_spacing_in_new_basis_z"])
+        gz = dot(gp, nn)
+        zfact = core.conj(gz == 0, lo == 0, sp > 0)
+        core.lemma(tag + "kernel_pre.oblique.pixel_on_kernel_grid.z", ortho + run.unit_facts() + run.extent_facts(), zfact)
+        projz = SV.lift(kw["cell_positions_in_new_basis_z"].elem((n,))) == dot(og, nn)
+        prove(tag + "kernel_pre.oblique.projected_centre.z", projz)
+        csz = use(cs_instance(delta, nn), note)
+        saz = use(sq_abs_instance(dot(delta, nn), half), note)
+        extra = [zfact, projz, csz, saz]
     # under the containment test: every |delta_d| <= size, hence |delta|^2 <= 3 size^2 = half^2
-    goal = footprint_pre(kw, n, (0, j, i), 3)
+    goal = footprint_pre(kw, n, (k, j, i), 3)
     dd = core.implies(passes, core.conj(dot(delta, delta) <= half * half, size >= 0))
     core.lemma(tag + "kernel_pre.oblique.offset_norm_bound", core.sqrt_axioms(), dd)
-    core.lemma(tag + "kernel_pre.footprint", facts + inst + [zfact, projz, csz, saz, dd] + ortho[:3] + core.sqrt_axioms(), goal)
+    core.lemma(tag + "kernel_pre.footprint", facts + inst + extra + [dd] + ortho[:3] + core.sqrt_axioms(), goal)
 
 
-def complete_oblique(run, kc, j, i, q, px, py, win_facts, tag=""):
+def complete_oblique(run, kc, j, i, q, px, py, win_facts, tag="", k=0, Z=None, z_facts=()):
     """completeness for an arbitrary orthonormal basis: the pre-selection bounds follow from Cauchy-Schwarz and the
     triangle inequality, spelled out as instances of the three real-arithmetic lemmas"""
     u, v, nn = run.basis()
@@ -567,8 +573,8 @@ def complete_oblique(run, kc, j, i, q, px, py, win_facts, tag=""):
     for a in inside:
         core.assume(a)
     ortho = [dot(u, u) == 1, dot(v, v) == 1, dot(nn, nn) == 1, dot(u, v) == 0, dot(u, nn) == 0, dot(v, nn) == 0]
-    for k, f in enumerate(ortho):
-        prove(tag + "basis.orthonormal[%d]" % k, f)  # from the contract of VectorBasis (normal is non-zero)
+    for qq, f in enumerate(ortho):
+        prove(tag + "basis.orthonormal[%d]" % qq, f)  # from the contract of VectorBasis (normal is non-zero)
     a = [c[d] - q[d] for d in range(3)]
     r3 = core.sqrt(3)
     A = r3 * sz / 2
@@ -583,7 +589,15 @@ def complete_oblique(run, kc, j, i, q, px, py, win_facts, tag=""):
     # stage 0: |(c - o).n| = |a.n + (q - o).n| = |a.n|
     mask0, count0, sel0 = run.chain[0]
     keep0 = SV.lift(snp._to_bool(mask0.elem((m,))))
-    core.lemma(tag + "preselect0.keeps_containing_cell", [bound0, dot(u, nn) == 0, dot(v, nn) == 0] + core.sqrt_axioms(), keep0)
+    # (thick maps: the sample is z_k off the plane, |z_k| <= dz/2, and the slab distance carries the extra dz/2)
+    e0 = [c[d] - run.origin_comp(d) for d in range(3)]
+    X0, Y0 = SV.lift(px), SV.lift(py)
+    Z0 = SV.lift(Z) if Z is not None else SV.lift(0.0)
+    en_expand = dot(e0, nn) == dot(a, nn) + X0 * dot(u, nn) + Y0 * dot(v, nn) + Z0 * dot(nn, nn)
+    core.lemma(tag + "oblique.normal_distance.expansion", [], en_expand)
+    en_val = dot(e0, nn) == dot(a, nn) + Z0
+    core.lemma(tag + "oblique.normal_distance", [en_expand] + ortho, en_val)
+    core.lemma(tag + "preselect0.keeps_containing_cell", [bound0, en_val] + list(z_facts) + run.unit_facts() + core.sqrt_axioms(), keep0)
     core.assume(keep0)
     r1 = sel0.rank(m)
     ax0 = sel0.rank.axiom
@@ -596,27 +610,47 @@ def complete_oblique(run, kc, j, i, q, px, py, win_facts, tag=""):
     X, Y = SV.lift(px), SV.lift(py)
     W = SV.lift(run.win.magnitude)
     Wy = SV.lift(run.win_y.magnitude) if hasattr(run, "win_y") else W
-    M = core.ite(W > Wy, W, Wy)
     c06 = SV.lift(0.6)  # the code's constant (a double, slightly below 3/5)
-    B = M * c06 * r3
-    b = [X * u[d] + Y * v[d] for d in range(3)]
-    bb_eq = dot(b, b) == X * X + Y * Y
-    expand = dot(b, b) == X * X * dot(u, u) + 2 * X * Y * dot(u, v) + Y * Y * dot(v, v)
-    core.lemma(tag + "oblique.inplane_norm.expansion", [], expand)  # a polynomial identity
-    core.lemma(tag + "oblique.inplane_norm", [expand] + ortho[:2] + [ortho[3]], bb_eq)
     inx, iny = win_facts[0], win_facts[1]
     sqx = core.lemma(tag + "oblique.x_square_bound", [inx, W > 0], X * X <= (W / 2) * (W / 2))
     sqy = core.lemma(tag + "oblique.y_square_bound", [iny, Wy > 0], Y * Y <= (Wy / 2) * (Wy / 2))
-    win_sq = (W / 2) * (W / 2) + (Wy / 2) * (Wy / 2) <= B * B
-    core.lemma(tag + "oblique.window_bound", [W > 0, Wy > 0] + core.sqrt_axioms(), win_sq)
-    bb = dot(b, b) <= B * B
-    core.lemma(tag + "oblique.inplane_bound", [bb_eq, X * X <= (W / 2) * (W / 2), Y * Y <= (Wy / 2) * (Wy / 2), win_sq], bb)
+    if Z is None:
+        Wz = W  # thin maps: dz = dx in the code's max(dx, dy, dz)
+        M = core.ite(W > Wy, W, Wy)
+        B = M * c06 * r3
+        b = [X * u[d] + Y * v[d] for d in range(3)]
+        bb_eq = dot(b, b) == X * X + Y * Y
+        expand = dot(b, b) == X * X * dot(u, u) + 2 * X * Y * dot(u, v) + Y * Y * dot(v, v)
+        core.lemma(tag + "oblique.inplane_norm.expansion", [], expand)  # a polynomial identity
+        core.lemma(tag + "oblique.inplane_norm", [expand] + ortho[:2] + [ortho[3]], bb_eq)
+        win_sq = (W / 2) * (W / 2) + (Wy / 2) * (Wy / 2) <= B * B
+        core.lemma(tag + "oblique.window_bound", [W > 0, Wy > 0] + core.sqrt_axioms(), win_sq)
+        bb = dot(b, b) <= B * B
+        core.lemma(tag + "oblique.inplane_bound", [bb_eq, X * X <= (W / 2) * (W / 2), Y * Y <= (Wy / 2) * (Wy / 2), win_sq], bb)
+    else:
+        Wz = SV.lift(run.to_pos_unit(run.dz.magnitude))
+        Mxy = core.ite(W > Wy, W, Wy)
+        M = core.ite(Mxy > Wz, Mxy, Wz)
+        B = M * c06 * r3
+        b = [X * u[d] + Y * v[d] + Z * nn[d] for d in range(3)]
+        bb_eq = dot(b, b) == X * X + Y * Y + Z * Z
+        expand = dot(b, b) == (X * X * dot(u, u) + Y * Y * dot(v, v) + Z * Z * dot(nn, nn) + 2 * X * Y * dot(u, v) + 2 * X * Z * dot(u, nn)
+                               + 2 * Y * Z * dot(v, nn))
+        core.lemma(tag + "oblique.sample_offset_norm.expansion", [], expand)
+        core.lemma(tag + "oblique.sample_offset_norm", [expand] + ortho, bb_eq)
+        inz = z_facts[0]
+        core.lemma(tag + "oblique.z_square_bound", [inz, Wz > 0], Z * Z <= (Wz / 2) * (Wz / 2))
+        win_sq = (W / 2) * (W / 2) + (Wy / 2) * (Wy / 2) + (Wz / 2) * (Wz / 2) <= B * B
+        core.lemma(tag + "oblique.window_bound", [W > 0, Wy > 0, Wz > 0] + core.sqrt_axioms(), win_sq)
+        bb = dot(b, b) <= B * B
+        core.lemma(tag + "oblique.sample_offset_bound", [bb_eq, X * X <= (W / 2) * (W / 2), Y * Y <= (Wy / 2) * (Wy / 2),
+                                                         Z * Z <= (Wz / 2) * (Wz / 2), win_sq], bb)
     cs_ab = use(cs_instance(a, b), note)
     mm = use(mul_mono_instance(dot(a, a), A * A, dot(b, b), B * B), note)
     tab = dot(a, b)
     sab = use(sq_abs_instance(tab, A * B), note)
     nonneg = core.conj(dot(a, a) >= 0, dot(b, b) >= 0, A >= 0, B >= 0)
-    core.lemma(tag + "oblique.nonneg", [sz > 0, W > 0, Wy > 0] + core.sqrt_axioms(), nonneg)
+    core.lemma(tag + "oblique.nonneg", [sz > 0, W > 0, Wy > 0, Wz > 0] + core.sqrt_axioms(), nonneg)
     ab_bound = tab <= A * B
     core.lemma(tag + "oblique.cross_term_bound", [cs_ab, mm, sab, nonneg, dot(a, a) <= A * A, bb], ab_bound)
     e = [c[d] - run.origin_comp(d) for d in range(3)]
@@ -641,10 +675,24 @@ def complete_oblique(run, kc, j, i, q, px, py, win_facts, tag=""):
     index_facts += [sel_r1 == SV.lift(r1), SV.lift(r2) >= 0, SV.lift(r2) < SV.lift(count1)]
     sig = run.sigma(r2)
     core.lemma(tag + "containing_cell.kernel_row", index_facts, sig == m)
-    ax_last = K.last_elim(kc, r2, 0, j, i)
-    passes = kc.contains(r2, 0, j, i)
-    core.lemma(tag + "containing_cell.passes_kernel_test", inside + [sz > 0, sig == m] + run.unit_facts(), passes)
-    h = kc.last(0, j, i)
+    ax_last = K.last_elim(kc, r2, k, j, i)
+    passes = kc.contains(r2, k, j, i)
+    # the kernel works in units of the window width: (argument * width) is the position-unit quantity
+    Wd = SV.lift(run.to_pos_unit(run.win.magnitude))
+    gpk = [SV.lift(kc.gp.elem((k, j, i, d))) for d in range(3)]
+    ogk = [SV.lift(kc.orig[d].elem((r2,))) for d in range(3)]
+    szk = SV.lift(kc.sizes.elem((r2,)))
+    rel = []
+    for d in range(3):
+        Ed = gpk[d] * Wd == q[d] - run.origin_comp(d)
+        core.lemma(tag + "containing_cell.kernel_units.pixel[%d]" % d, run.unit_facts(), Ed)
+        Fd = ogk[d] * Wd == c[d] - run.origin_comp(d)
+        core.lemma(tag + "containing_cell.kernel_units.centre[%d]" % d, [sig == m] + index_facts + run.unit_facts(), Fd)
+        rel += [Ed, Fd]
+    G = szk * Wd == sz / 2
+    core.lemma(tag + "containing_cell.kernel_units.size", [sig == m] + index_facts + run.unit_facts(), G)
+    core.lemma(tag + "containing_cell.passes_kernel_test", inside + rel + [G, Wd > 0], passes, opaque=gpk + ogk + [szk])
+    h = kc.last(k, j, i)
     rng = core.conj(SV.lift(r2) >= 0, SV.lift(r2) < SV.lift(kc.ncells))
     core.lemma(tag + "containing_cell.row_in_kernel_range", index_facts + [SV.lift(kc.ncells) == SV.lift(run.nsel)], rng)
     core.lemma(tag + "containing_cell.pixel_not_masked", [ax_last, passes, rng], h >= 0)
